@@ -630,6 +630,12 @@ func (p *twkbParser) parsePointCountAndArray() ([]float64, int, error) {
 // Utilise and update the running memory of the previous reference point.
 // The returned array will contain numPoints * the number of dimensions values.
 func (p *twkbParser) parsePointArray(numPoints int) ([]float64, error) {
+	// Each coordinate value is encoded using at least 1 byte. Check that the
+	// input is long enough *before* allocating, so that a bogus count can't
+	// cause a huge (or negative sized) allocation.
+	if numPoints < 0 || uint64(numPoints) > uint64(len(p.twkb)-p.pos)/uint64(p.dimensions) {
+		return nil, fmt.Errorf("number of points (%d) exceeds remaining input", numPoints)
+	}
 	coords := make([]float64, numPoints*p.dimensions)
 	c := 0
 	for i := 0; i < numPoints; i++ {
@@ -648,6 +654,10 @@ func (p *twkbParser) parsePointArray(numPoints int) ([]float64, error) {
 }
 
 func (p *twkbParser) parseIDList(numIDs int) error {
+	// Each ID is encoded using at least 1 byte.
+	if numIDs < 0 || numIDs > len(p.twkb)-p.pos {
+		return fmt.Errorf("number of IDs (%d) exceeds remaining input", numIDs)
+	}
 	p.idList = make([]int64, numIDs)
 	for i := 0; i < numIDs; i++ {
 		id, err := p.parseSignedVarint()
